@@ -8,8 +8,10 @@
    - a thread is inside ClearKey(k) only while nobody holds k and nobody else is
      inside a Lock/TryLock/Unlock/RLock/... call on k (awaits k);
    - a thread is inside such a call on k only while nobody is inside ClearKey(k).
-   Proved for all such programs and schedules: per-KEY mutual exclusion, and the
-   key's current mutex is locked while the key is held exclusively. After a
+   Proved for all such programs and schedules: per-KEY mutual exclusion; the
+   key's current mutex is locked while the key is held exclusively; no panic;
+   and the key-level Try*/Lock/RLock theorems of Props/C09.v (fail or wait while
+   the key is held incompatibly, succeed when it is free). After a
    ClearKey the next LockKey creates a new mutex for the key (Example), so the
    "one mutex per key" theorem of Props/C09.v deliberately excludes ClearKey.
    Statements only; proofs are [exact] of theorems of SyncMap/ClearKey.v (which
@@ -31,6 +33,95 @@ Theorem C09_holder_locks_mutex_with_clearkey : forall progs sched,
   exists i m, c_insts c = [i] /\ kmut (i_st i) k = Some m /\ c_um c !! m = Some ULocked.
 Proof. exact keyed_holder_locks_mutex_clearkey. Qed.
 Print Assumptions C09_holder_locks_mutex_with_clearkey.
+
+(* Runs that respect the contract never panic (no unlock of an unlocked mutex). *)
+Theorem C09_clearkey_no_panic : forall progs sched, ck_progs progs -> disc2_from (init_config 1 progs) sched ->
+  c_panicked (run_schedule (init_config 1 progs) sched) = false.
+Proof. exact ck_disciplined_no_panic. Qed.
+Print Assumptions C09_clearkey_no_panic.
+
+(* ---- Try* / Lock / RLock at the level of keys, in runs with ClearKey (the statements of Props/C09.v) ---- *)
+Theorem C09_trylock_fails_while_held_with_clearkey : forall progs sched,
+  ck_progs progs -> disc2_from (init_config 1 progs) sched ->
+  let c := run_schedule (init_config 1 progs) sched in
+  forall t ch c' f t2 b2,
+  top_frame c t = Some f -> (f_pc f = KM_TryLock \/ f_pc f = KRW_TryLock) ->
+  (t2, key_of (f_call f), b2) ∈ holders c -> step c t ch = Some c' ->
+  completed (c_hist c') = completed (c_hist c) ++ [(t, f_call f, RBool false)] /\ c_um c' = c_um c /\ holders c' = holders c.
+Proof. exact ck_trylock_fails_while_held. Qed.
+Print Assumptions C09_trylock_fails_while_held_with_clearkey.
+
+Theorem C09_tryrlock_fails_while_write_held_with_clearkey : forall progs sched,
+  ck_progs progs -> disc2_from (init_config 1 progs) sched ->
+  let c := run_schedule (init_config 1 progs) sched in
+  forall t ch c' f t2,
+  top_frame c t = Some f -> f_pc f = KRW_TryRLock ->
+  holds_excl c t2 (key_of (f_call f)) -> step c t ch = Some c' ->
+  completed (c_hist c') = completed (c_hist c) ++ [(t, f_call f, RBool false)] /\ c_um c' = c_um c /\ holders c' = holders c.
+Proof. exact ck_tryrlock_fails_while_write_held. Qed.
+Print Assumptions C09_tryrlock_fails_while_write_held_with_clearkey.
+
+Theorem C09_lock_waits_while_held_with_clearkey : forall progs sched,
+  ck_progs progs -> disc2_from (init_config 1 progs) sched ->
+  let c := run_schedule (init_config 1 progs) sched in
+  forall t ch f t2 b2,
+  top_frame c t = Some f -> (f_pc f = KM_Lock \/ f_pc f = KRW_Lock) ->
+  (t2, key_of (f_call f), b2) ∈ holders c -> step c t ch = None.
+Proof. exact ck_lock_waits_while_held. Qed.
+Print Assumptions C09_lock_waits_while_held_with_clearkey.
+
+Theorem C09_rlock_waits_while_write_held_with_clearkey : forall progs sched,
+  ck_progs progs -> disc2_from (init_config 1 progs) sched ->
+  let c := run_schedule (init_config 1 progs) sched in
+  forall t ch f t2,
+  top_frame c t = Some f -> f_pc f = KRW_RLock ->
+  holds_excl c t2 (key_of (f_call f)) -> step c t ch = None.
+Proof. exact ck_rlock_waits_while_write_held. Qed.
+Print Assumptions C09_rlock_waits_while_write_held_with_clearkey.
+
+(* the "succeeds when free" halves, for fresh mutexes ([fresh_values], as in Props/C09.v); note that the
+   key may have NO mutex at this moment (it was cleared): then LoadOrStore has just created one *)
+Theorem C09_trylock_succeeds_when_key_free_with_clearkey : forall progs sched,
+  ck_progs progs -> disc2_from (init_config 1 progs) sched -> fresh_values progs ->
+  let c := run_schedule (init_config 1 progs) sched in
+  forall t ch c' f,
+  top_frame c t = Some f -> (f_pc f = KM_TryLock \/ f_pc f = KRW_TryLock) ->
+  (forall t2 b, (t2, key_of (f_call f), b) ∉ holders c) -> step c t ch = Some c' ->
+  completed (c_hist c') = completed (c_hist c) ++ [(t, f_call f, RBool true)] /\ holds_excl c' t (key_of (f_call f)).
+Proof. exact ck_trylock_succeeds_when_key_free. Qed.
+Print Assumptions C09_trylock_succeeds_when_key_free_with_clearkey.
+
+Theorem C09_tryrlock_succeeds_when_key_not_write_held_with_clearkey : forall progs sched,
+  ck_progs progs -> disc2_from (init_config 1 progs) sched -> fresh_values progs ->
+  let c := run_schedule (init_config 1 progs) sched in
+  forall t ch c' f,
+  top_frame c t = Some f -> f_pc f = KRW_TryRLock ->
+  (forall t2, ~ holds_excl c t2 (key_of (f_call f))) -> step c t ch = Some c' ->
+  completed (c_hist c') = completed (c_hist c) ++ [(t, f_call f, RBool true)] /\ holds_shared c' t (key_of (f_call f)).
+Proof. exact ck_tryrlock_succeeds_when_key_not_write_held. Qed.
+Print Assumptions C09_tryrlock_succeeds_when_key_not_write_held_with_clearkey.
+
+Theorem C09_lock_succeeds_when_key_free_with_clearkey : forall progs sched,
+  ck_progs progs -> disc2_from (init_config 1 progs) sched -> fresh_values progs ->
+  let c := run_schedule (init_config 1 progs) sched in
+  forall t ch f,
+  top_frame c t = Some f -> (f_pc f = KM_Lock \/ f_pc f = KRW_Lock) ->
+  (forall t2 b, (t2, key_of (f_call f), b) ∉ holders c) ->
+  exists c', step c t ch = Some c' /\ completed (c_hist c') = completed (c_hist c) ++ [(t, f_call f, RUnit)] /\
+             holds_excl c' t (key_of (f_call f)).
+Proof. exact ck_lock_succeeds_when_key_free. Qed.
+Print Assumptions C09_lock_succeeds_when_key_free_with_clearkey.
+
+Theorem C09_rlock_succeeds_when_key_not_write_held_with_clearkey : forall progs sched,
+  ck_progs progs -> disc2_from (init_config 1 progs) sched -> fresh_values progs ->
+  let c := run_schedule (init_config 1 progs) sched in
+  forall t ch f,
+  top_frame c t = Some f -> f_pc f = KRW_RLock ->
+  (forall t2, ~ holds_excl c t2 (key_of (f_call f))) ->
+  exists c', step c t ch = Some c' /\ completed (c_hist c') = completed (c_hist c) ++ [(t, f_call f, RUnit)] /\
+             holds_shared c' t (key_of (f_call f)).
+Proof. exact ck_rlock_succeeds_when_key_not_write_held. Qed.
+Print Assumptions C09_rlock_succeeds_when_key_not_write_held_with_clearkey.
 
 (* Non-vacuity: thread 1 holds key 8 throughout; thread 0 runs LockKey(7); UnlockKey(7); ClearKey(7)
    (the run is disciplined: nobody else touches key 7 meanwhile); then thread 1's LockKey(7) finds the
